@@ -79,6 +79,32 @@ def lib_validate(path):
     return rows
 
 
+def real_flavor(load, dump, variant=0):
+    """pvl_validate.pvl_flavor with pvl.loads / pvl.dumps stubbed to end in the given way"""
+    import pvl, pvl.pvl_validate as V
+    from pvl.lexer import LexerError
+    from pvl.parser import ParseError
+
+    def stub(kind, ok):
+        def f(*a, **kw):
+            if kind == "ok":
+                return ok
+            if kind == "pvl":
+                raise (ParseError("x") if variant else LexerError("x", "abc", 1, "b"))
+            if kind == "refused":
+                raise (TypeError("x") if variant else ValueError("x"))
+            raise (KeyError("x") if variant else AttributeError("x"))
+        return f
+    old_l, old_d = pvl.loads, pvl.dumps
+    logging.disable(logging.CRITICAL)
+    try:
+        pvl.loads, pvl.dumps = stub(load, pvl.PVLModule()), stub(dump, "")
+        return V.pvl_flavor("a = 1", "X", dict(), "file", 0)
+    finally:
+        pvl.loads, pvl.dumps = old_l, old_d
+        logging.disable(logging.NOTSET)
+
+
 def run_validate(paths):
     import pvl.pvl_validate as V
     buf = _io.StringIO()
@@ -137,6 +163,7 @@ def run(ctx):
     stats = collections.Counter()
     distinct = set()
     evals = 0
+    corr = None
     samples = []
     try:
         texts = []
@@ -182,9 +209,16 @@ def run(ctx):
         # ---- pvl_validate: one file, and many files per invocation
         expected = {p: lib_validate(p) for p in paths}
         groups = [[p] for p in paths[:: 2]] + [paths[i:i + 5] for i in range(0, len(paths), 5)]
+        report_cases = []     # (model line, the text the real tool printed)
         for grp in groups:
             status, rep = run_validate(grp)
             evals += 1
+            if status[0] == "ok":
+                import pvl.pvl_validate as V
+                def code(v):
+                    return ("T" if v[0] else "F") + {True: "T", False: "F", None: "N"}[v[1]]
+                rows = ["%s/%s" % (core.cps(p), "".join(code(expected[p][nm]) for nm in V.dialects)) for p in grp]
+                report_cases.append(("report " + " ".join(rows), status[1]))
             distinct.add(("validate", tuple(grp)))
             stats["validate:%s:%d" % (status[0], min(len(grp), 2))] += 1
             if status[0] != "ok":
@@ -205,10 +239,35 @@ def run(ctx):
                         bad = {"what": "pvl_validate reports %s: loads=%s encodes=%s; the library: loads=%s encodes=%s"
                                        % (nm, lg, eg, lw, ew), "tool": "pvl_validate", "dialect": nm,
                                "text": open(p, encoding="utf-8", newline="").read(), "files_in_invocation": len(grp)}
+        # the model renders the report from the library's verdicts: the printed text must be that, to the letter
+        drv = core.Driver()
+        corr = None
+        if os.path.exists(drv.exe) and report_cases:
+            outs = drv.run([c[0] for c in report_cases])
+            for (line, real), o in zip(report_cases, outs):
+                mtext = "".join(chr(int(x)) for x in o.split(",")) if o not in ("-", "") else ""
+                same = (mtext + "\n" == real)
+                stats["report-text:" + ("same" if same else "differs")] += 1
+                if not same and corr is None:
+                    corr = {"what": "correspondence pvl_validate report: the model's rendering of the library's "
+                                    "verdicts differs from the text the tool printed", "model": mtext, "real": real}
+            # the verdict logic itself: pvl_flavor with the library calls replaced by stubs that end in each way
+            combos = [(a, b) for a in ("ok", "pvl", "other") for b in ("ok", "refused", "other")]
+            mouts = drv.run(["flavor %s %s" % ab for ab in combos])
+            for (a, b), mo in zip(combos, mouts):
+                for variant in range(2):
+                    rv = real_flavor(a, b, variant)
+                    code = ("T" if rv[0] else "F") + {True: "T", False: "F", None: "N"}[rv[1]]
+                    stats["flavor:" + ("same" if code == mo else "differs")] += 1
+                    if code != mo and corr is None:
+                        corr = {"what": "correspondence pvl_flavor: load ends %s, dump ends %s: tool says %s, model %s"
+                                        % (a, b, code, mo)}
     finally:
         shutil.rmtree(tmp, ignore_errors=True)
     if bad:
         core.violation(ctx, "file", bad, True)
+    elif corr:
+        core.violation(ctx, "correspondence", corr, False)
     elif not lean["ok"]:
         core.violation(ctx, "proof", {"what": "C20 proof obligations no longer check", "broken": lean["problems"]}, False)
     for f in [f for f in core.load_known()["findings"] if f["property"] == "C20"]:
